@@ -64,11 +64,12 @@ Proof. intros H. unfold pbind. rewrite H. reflexivity. Qed.
 
 (* states are handled by destructing the record so that `cbn` can run the step function *)
 Definition Inv0 (s : pst) : Prop :=          (* before STREAM-START is consumed *)
-  pstate_ s = Some PStreamStart /\ pstates s = [] /\ pmarks s = [] /\ exists t r, toks s = t :: r /\ toks_ok r.
+  pstate_ s = Some PStreamStart /\ pstates s = [] /\ pmarks s = [] /\ exists t r, toks s = t :: r /\ t_kind t = TStreamStart /\ toks_ok r.
 
 Lemma step_stream_start s : Inv0 s -> safe_step s.
 Proof.
-  destruct s as [tk ps stk mk h v]. intros (Hp & Hs & Hm & t & r & E & Hr). simpl in *. subst.
+  destruct s as [tk ps stk mk h v]. intros (Hp & Hs & Hm & t & r & E & Hk & Hr). simpl in *. subst.
+  destruct t as [k a b]. simpl in Hk. subst k.
   unfold safe_step. cbn. unfold Inv. cbn. split; auto. exists []. repeat split; auto. exists []. auto.
 Qed.
 
